@@ -23,7 +23,8 @@ RULE = ('cases: (lib) arbitrary triple lists (duplicates, foreign tops, disconne
         '(only role errors allowed); (tool) 1..3 input sources (stdin or files) each with 0..3 graphs, compliant and non-compliant mixed in '
         'every order, --amr / --model FILE / default. Non-trivial: (lib) the reference reports >= 1 error; (tool) >= 2 sources or a mix of '
         'failing and passing graphs. Distinct by case content.')
-ASSUMPTIONS = ['the clause "a decoded graph only receives role errors" is asserted for texts that do not spell the concept relation as an explicit :instance role '
+ASSUMPTIONS = ['sources of triples are strings: a text whose empty node "()" sits under an inverted role decodes to a triple with source None and is skipped',
+               'the clause "a decoded graph only receives role errors" is asserted for texts that do not spell the concept relation as an explicit :instance (or :instance-of) role '
                '(a nested node under ":instance" hangs off its parent by a concept link only: the decoded graph is disconnected and encode() refuses it as well)',
                'reference: a role is valid iff some role pattern (or the top/concept role) matches it completely, directly or after removing one '
                '"-of"; unreachable = source not weakly connected to the top through edges (non-instance triples whose target is a source)',
@@ -64,6 +65,8 @@ def check_lib(case):
         node = interp.to_node(case['tree'])
         g = layout.interpret(Tree(node), m)
         lab = '%s under %s' % (fmt(node), spec.get('name'))
+        if any(t[0] is None for t in g.triples):
+            return []          # "()" under an inverted role: the source of the triple is None, which is not a Variable (str)
     errs = m.errors(g)
     per, gen = ref_errors(list(g.triples), g.top, spec)
     f = []
@@ -82,7 +85,7 @@ def check_lib(case):
         if not ms:
             f.append(('empty-entry', '%s: %r' % (lab, t)))
     def _explicit_instance(nd):
-        return any(r.split('~')[0] == ':instance' or (not interp.is_atom(x) and _explicit_instance(x)) for r, x in nd[1])
+        return any(r.split('~')[0] in (':instance', ':instance-of') or (not interp.is_atom(x) and _explicit_instance(x)) for r, x in nd[1])
     if case['k'] == 'decoded' and node[0] is not None and not _explicit_instance(node):
         bad = {x for ms in errs.values() for x in ms} - {'invalid role'}
         if bad:
@@ -204,9 +207,11 @@ def classes(case):
 
 @st.composite
 def _lib_cases(draw):
-    spec = draw(st.one_of(models.model_specs(noop=False), models.custom_tables(concept_roles=True)))
+    spec = draw(st.one_of(models.model_specs(noop=False), models.custom_tables(concept_roles=True, foreign_reifications=True)))
     t = build_table(spec)
-    lits = [r for r in t['roles'] if '[' not in r and '(' not in r][:8] + [':op1', ':op12', ':ARG0', ':ARG9', ':snt2'] + sorted(t['normalizations'])[:3] + [t['concept_role']]
+    lits = [r for r in t['roles'] if '[' not in r and '(' not in r][:8] + [':op1', ':op12', ':ARG0', ':ARG9', ':snt2'] + sorted(t['normalizations'])[:3] + [t['concept_role']] + [r[0] for r in t['reifications']][-2:]
+    # undefined stems of roles that end in -of by definition (:consist of :consist-of), asked for AFTER the defined role and before it
+    lits += [r[:-3] for r in t['roles'] if r.endswith('-of') and '[' not in r and '(' not in r][:3] + [r for r in t['roles'] if r.endswith('-of') and '[' not in r and '(' not in r][:3]
     vs = ['a', 'b', 'c', 'd']
     roles = [':instance', ':instance'] + lits + [r + '-of' for r in lits[:6]] + [r + '-of-of' for r in lits[:3]] + [':foo', ':', ':TOP', ':foo-of', 'ARG0']
     tg = vs + ['x', 'a', None, 1, '"s"']
@@ -281,8 +286,25 @@ def _chain_cases(ch):
     yield {'k': 'lib', 'triples': list(reversed(ts)), 'top': vs[0], 'model': {'name': 'default'}}
 
 
+def _many_chunks(tier):
+    return [{'n': n, 'split': sp} for n in ((256,) if tier == 'quick' else (255, 256, 257, 512, 1024)) for sp in (1, 2)]
+
+
+def _many_cases(ch):
+    # exit statuses are bytes: a count of offending graphs that is a multiple of 256 must still give a non-zero status
+    bad = ['a', [['/', 'alpha'], [':foo', 'x']]]
+    good = ['b', [['/', 'beta'], [':ARG0', 'y']]]
+    n = ch['n']
+    if ch['split'] == 1:
+        srcs = [[bad] * n]
+    else:
+        srcs = [[bad] * (n // 2) + [good], [good] + [bad] * (n - n // 2)]
+    yield {'k': 'tool', 'sources': srcs, 'stdin': False, 'model': {'name': 'amr'}, 'extra': ['--indent', 'no'], 'subprocess': ch['split'] == 1}
+
+
 def stages(tier):
     return [
+        Enum('many-bad-graphs', _many_chunks, _many_cases, '256 (thorough: 255, 256, 257, 512, 1024) non-compliant graphs in one invocation, in one file and split over two'),
         Enum('long-chains', _chain_chunks, _chain_cases, 'chains, reversed chains, stars and two disconnected chains of 300 / 1200 (thorough: up to 10000) nodes built through the Graph API'),
         Hyp('library-lists', _lib_cases, 5000, 300000),
         Hyp('decoded-graphs', _decoded_cases, 1500, 60000),
